@@ -42,12 +42,17 @@ struct Plan {
     vals: Vec<Val>,
     move_vals: Vec<HashMap<String, Val>>,
     fixed4: bool,
+    /// wall time of the complete fresh search to depth d, microseconds (sizes wall-clock deadlines)
+    micros: u64,
 }
 
 #[derive(Clone, Copy, Debug)]
 enum Cut {
     Node(u64),
     Poll(u64),
+    /// a REAL wall-clock budget of that many microseconds handed to find_best_move: the engine's own
+    /// clock path decides, not the node/poll hook
+    Wall(u64),
 }
 
 impl Cut {
@@ -55,17 +60,21 @@ impl Cut {
         match self {
             Cut::Node(l) => format!("node {}", l),
             Cut::Poll(n) => format!("poll {}", n),
+            Cut::Wall(us) => format!("wall clock {} us", us),
         }
     }
     fn json(&self) -> J {
         match self {
             Cut::Node(l) => J::obj(vec![("kind", J::s("node")), ("at", J::i(*l as i64))]),
             Cut::Poll(n) => J::obj(vec![("kind", J::s("poll")), ("at", J::i(*n as i64))]),
+            Cut::Wall(us) => J::obj(vec![("kind", J::s("wall")), ("at", J::i(*us as i64))]),
         }
     }
     fn from_json(j: &J) -> Cut {
         if j.str_of("kind") == "poll" {
             Cut::Poll(j.int_of("at") as u64)
+        } else if j.str_of("kind") == "wall" {
+            Cut::Wall(j.int_of("at") as u64)
         } else {
             Cut::Node(j.int_of("at") as u64)
         }
@@ -83,7 +92,7 @@ fn set_cut(s: &mut Searcher, c: Option<Cut>) {
     match c {
         Some(Cut::Node(l)) => t.node_limit = Some(l),
         Some(Cut::Poll(n)) => t.poll_limit = Some(n),
-        None => {}
+        Some(Cut::Wall(_)) | None => {}
     }
 }
 
@@ -134,15 +143,18 @@ fn make_plan(p: &Pos, hist: Vec<Pos>, d: u8, rs: &mut RefSearch, st: &mut Stats)
     let b = eng::board_from_pos(p);
     let mut nodes = vec![];
     let mut polls = vec![];
+    let mut micros = 0u64;
     for k in 1..=d {
         let r = engine_call(|| {
             let mut s = Searcher::new();
             s.verif_timer().hard_cap = Some(50_000_000);
+            let t0 = std::time::Instant::now();
             let (sc, _) = s.find_best_move(&b, k, None);
-            (sc, s.verif_nodes(), s.verif_polls())
+            (sc, s.verif_nodes(), s.verif_polls(), t0.elapsed().as_micros() as u64)
         });
         match r {
-            Ok((sc, n, pl)) => {
+            Ok((sc, n, pl, us)) => {
+                micros = us;
                 if class(sc) != vals[k as usize - 1] {
                     // the uninterrupted search already disagrees with the reference: that is C05's
                     // finding, not an effect of an interruption — do not judge this position here
@@ -158,7 +170,7 @@ fn make_plan(p: &Pos, hist: Vec<Pos>, d: u8, rs: &mut RefSearch, st: &mut Stats)
             }
         }
     }
-    Some(Plan { p: p.clone(), hist, d, nodes, polls, vals, move_vals, fixed4: false })
+    Some(Plan { p: p.clone(), hist, d, nodes, polls, vals, move_vals, fixed4: false, micros })
 }
 
 /// iteration in flight when the deadline falls at `c`
@@ -166,6 +178,8 @@ fn iteration_at(plan: &Plan, c: Cut) -> u8 {
     let (x, bounds) = match c {
         Cut::Node(l) => (l, &plan.nodes),
         Cut::Poll(n) => (n, &plan.polls),
+        // not known in advance: the later search's depth is read off what the engine left (see run_trial)
+        Cut::Wall(_) => return 1,
     };
     for (i, b) in bounds.iter().enumerate() {
         if x <= *b {
@@ -213,17 +227,34 @@ fn run_trial(which: &str, plan: &Plan, cuts: &[Cut], later_depth: u8, st: &mut S
     let before = history_view(&s, &probes);
     let total = *plan.nodes.last().unwrap();
     let mut any_interrupted = false;
+    let mut wall_interrupted = false;
     for c in cuts.iter() {
         set_cut(&mut s, Some(*c));
         s.verif_timer().overrun_cap = Some(OVERSHOOT_BOUND);
         s.verif_timer().hard_cap = Some(total * 4 + 1_000_000);
+        let budget = match c {
+            Cut::Wall(us) => Some(Duration::from_micros(*us)),
+            _ => None,
+        };
         let r = {
             let s = &mut s;
-            engine_call(|| s.find_best_move(&b, plan.d, None))
+            engine_call(|| s.find_best_move(&b, plan.d, budget))
         };
         let interrupted = match c {
             Cut::Node(l) => *l < total,
             Cut::Poll(n) => *n < *plan.polls.last().unwrap(),
+            Cut::Wall(_) => {
+                // a search that ran out of wall-clock time has not completed its last iteration: the
+                // root entry it left is shallower than the depth asked for
+                let h = s.verif_hash(&b);
+                let done = s.verif_tt_entries().iter().filter(|e| e.hash_key == h).map(|e| e.depth).max().unwrap_or(0);
+                if done < plan.d {
+                    wall_interrupted = true;
+                    st.bump("interrupted_by_a_real_wall_clock_budget");
+                    st.bump(&format!("wall_clock_budget_ran_out_in_iteration_{}", done + 1));
+                }
+                done < plan.d
+            }
         };
         match r {
             Err(msg) => {
@@ -252,7 +283,9 @@ fn run_trial(which: &str, plan: &Plan, cuts: &[Cut], later_depth: u8, st: &mut S
                 st.maxi("max_nodes_after_deadline", over);
                 if interrupted {
                     st.bump("interrupted_searches");
-                    st.bump(&format!("interrupted_in_iteration_{}", iteration_at(plan, *c)));
+                    if !matches!(c, Cut::Wall(_)) {
+                        st.bump(&format!("interrupted_in_iteration_{}", iteration_at(plan, *c)));
+                    }
                 } else {
                     st.bump("deadline_after_search_end");
                 }
@@ -319,7 +352,7 @@ fn run_trial(which: &str, plan: &Plan, cuts: &[Cut], later_depth: u8, st: &mut S
         let done = s.verif_tt_entries().iter().filter(|e| e.hash_key == h).map(|e| e.depth).max().unwrap_or(0);
         // the iteration that was in flight when the last deadline fell left entries of its own
         // depth behind: the later search must not be shallower than that iteration either
-        let in_flight = if any_interrupted { (done + 1).min(plan.d) } else { done.min(plan.d) };
+        let in_flight = if any_interrupted || wall_interrupted { (done + 1).min(plan.d) } else { done.min(plan.d) };
         if done > plan.d {
             st.bump("skipped_earlier_search_completed_deeper_than_the_reference");
             return;
@@ -443,13 +476,13 @@ pub fn spec_for(which: &str, replay: bool) -> Spec<'static> {
     if which == "C06" {
         Spec {
             level: "fault_enumeration",
-            rule: "a case is (position with recorded earlier game, depth d in 2..3 [thorough: also 4 on few-men positions], interruption point(s), depth D of the later search). The interruption point is a deterministic deadline: after L nodes for EVERY L in 1..total when the complete search has <= max_points nodes (otherwise all iteration boundaries +-2 and a stratified sample), or at the n-th deadline poll (sampled), or two successive interruptions. After the interruption(s) the same engine instance runs a completed search to depth D (the iteration that was in flight, and d); its value class must equal the reference minimax value and its move must attain it; the history record (length and draw answers for the root, its successors and the recorded positions) must be unchanged by the interruption. Deep part: searches of 4..9 iterations (up to a few hundred thousand nodes) interrupted at every iteration boundary plus small offsets, at stratified node counts, at polls and twice in a row; only the history record is judged there (no reference value at that depth). Distinct by (position, d, cuts, D); non-trivial when at least one search was really interrupted (deadline before the end of the complete search)",
+            rule: "a case is (position with recorded earlier game, depth d in 2..3 [thorough: also 4 on few-men positions], interruption point(s), depth D of the later search). The interruption point is a deterministic deadline: after L nodes for EVERY L in 1..total when the complete search has <= max_points nodes (otherwise all iteration boundaries +-2 and a stratified sample), or at the n-th deadline poll (sampled), or a REAL wall-clock budget between zero and the time the complete search takes (the engine's own clock path; which iteration it ran out in is read off the root entry left behind), or two successive interruptions (also a wall-clock one before or after a node one). After the interruption(s) the same engine instance runs a completed search to depth D (the iteration that was in flight, and d); its value class must equal the reference minimax value and its move must attain it; the history record (length and draw answers for the root, its successors and the recorded positions) must be unchanged by the interruption. Deep part: searches of 4..9 iterations (up to a few hundred thousand nodes) interrupted at every iteration boundary plus small offsets, at stratified node counts, at polls and twice in a row; only the history record is judged there (no reference value at that depth). Distinct by (position, d, cuts, D); non-trivial when at least one search was really interrupted (deadline before the end of the complete search)",
             assumptions: vec![
                 "the reference rules implementation is correct (perft self-test at every run)".into(),
                 "the node/poll deadline hook stops the search exactly as an expired wall clock does: both are answered by SearchTimer::should_stop, the only place the engine asks about its deadline".into(),
                 "positions whose reference tree or quiescence exceeds the node budget are skipped and counted".into(),
             ],
-            required: if replay { vec![] } else { vec!["interrupted_searches", "later_searches_judged", "history_comparisons", "interrupted_in_iteration_1", "interrupted_in_iteration_2", "interrupted_in_iteration_3", "poll_deadline_trials", "double_interruption_trials", "positions_enumerated_exhaustively", "deep_history_interrupted_searches", "deep_history_interrupted_in_iteration_5_or_later"] },
+            required: if replay { vec![] } else { vec!["interrupted_searches", "later_searches_judged", "history_comparisons", "interrupted_in_iteration_1", "interrupted_in_iteration_2", "interrupted_in_iteration_3", "poll_deadline_trials", "double_interruption_trials", "interrupted_by_a_real_wall_clock_budget", "positions_enumerated_exhaustively", "deep_history_interrupted_searches", "deep_history_interrupted_in_iteration_5_or_later"] },
             exhaustive: false,
             extra: vec![],
         }
@@ -616,6 +649,22 @@ pub fn run(ctx: &Ctx) -> i32 {
                 trials.push(Trial { plan: pi, cuts: vec![c], later_depth: iteration_at(plan, c) });
                 total.bump("poll_deadline_trials");
             }
+            // real wall-clock budgets (the engine's own clock path, not the node/poll hook): from zero to a
+            // little more than the complete search takes on this machine
+            if which == "C06" {
+                for i in 0..(max_points / 5).max(10) {
+                    let us = if i == 0 { 0 } else { rng.range(0, (plan.micros + plan.micros / 4 + 20) as i64) as u64 };
+                    let c = Cut::Wall(us);
+                    if i % 4 == 3 {
+                        // after (or before) a deterministic interruption on the same engine
+                        let a = Cut::Node(rng.range(1, total_nodes as i64) as u64);
+                        trials.push(Trial { plan: pi, cuts: if i % 8 == 3 { vec![a, c] } else { vec![c, a] }, later_depth: iteration_at(plan, a) });
+                    } else {
+                        trials.push(Trial { plan: pi, cuts: vec![c], later_depth: 1 });
+                    }
+                    total.bump("wall_clock_budget_trials");
+                }
+            }
             // two interruptions before the completed search
             if which == "C06" {
                 for _ in 0..(max_points / 6).max(8) {
@@ -644,9 +693,10 @@ pub fn run(ctx: &Ctx) -> i32 {
             let really = t.cuts.iter().any(|c| match c {
                 Cut::Node(l) => *l < total_nodes,
                 Cut::Poll(n) => *n < *plan.polls.last().unwrap(),
+                Cut::Wall(us) => *us < plan.micros,
             });
             st.case(hash64(&(plan.p.key(), plan.d, format!("{:?}", t.cuts), t.later_depth)), really);
-            st.sample_tagged(&format!("{}{}", t.cuts.len(), matches!(t.cuts[0], Cut::Poll(_))), || trial_json(plan, &t.cuts, t.later_depth));
+            st.sample_tagged(&format!("{}{}{}", t.cuts.len(), matches!(t.cuts[0], Cut::Poll(_)), matches!(t.cuts[0], Cut::Wall(_))), || trial_json(plan, &t.cuts, t.later_depth));
             run_trial(which, plan, &t.cuts, t.later_depth, &mut st);
         }
         st
@@ -1386,10 +1436,28 @@ fn c06_blackbox(ctx: &Ctx) -> Stats {
                 }
             };
             eng.quit();
+            let script = vec![pos_cmd.clone(), format!("go movetime {}", t), format!("go depth {}", later)];
             let got = match info_depth_score(&second, later) {
                 Some(s) => s,
                 None => {
+                    // the later search has no clock and the position has legal moves: it must complete
+                    // the iteration it was asked for and report its value. (A fresh process does — that
+                    // is checked first, so a changed output format cannot be mistaken for this.)
                     st.bump("blackbox_no_info_line");
+                    let fresh_reports = bb::Engine::spawn(&ctx.engine_bin).ok().map(|mut e| {
+                        let _ = e.send(&pos_cmd);
+                        let l = e.command(&format!("go depth {}", later), Duration::from_secs(60)).unwrap_or_default();
+                        e.quit();
+                        info_depth_score(&l, later).is_some()
+                    });
+                    if fresh_reports == Some(true) {
+                        st.case(hash64(&(p.key(), t, later)), true);
+                        st.violation(
+                            format!("C06:blackbox-later-search-reports-nothing:{}:{}:{}", p.to_fen(), t, later),
+                            format!("{}: after 'go movetime {}' (completed depth {}), 'go depth {}' prints no value for depth {} (its output: {:?}) although a fresh process given the same position and the same go does", p.to_fen(), t, j, later, later, second),
+                            J::obj(vec![("kind", J::s("blackbox")), ("commands", J::arr_s(script.clone())), ("completed_depth_of_first_go", J::i(j as i64))]),
+                        );
+                    }
                     continue;
                 }
             };
@@ -1401,7 +1469,6 @@ fn c06_blackbox(ctx: &Ctx) -> Stats {
                     continue;
                 }
             };
-            let script = vec![pos_cmd.clone(), format!("go movetime {}", t), format!("go depth {}", later)];
             let case = J::obj(vec![("kind", J::s("blackbox")), ("commands", J::arr_s(script.clone())), ("completed_depth_of_first_go", J::i(j as i64))]);
             st.case(hash64(&(p.key(), t, later)), true);
             st.bump("blackbox_interrupt_then_search");
